@@ -2,6 +2,7 @@ package l1
 
 import (
 	"fmt"
+	"strings"
 
 	"github.com/btcsuite/btcd/chainhash/v2"
 	"github.com/btcsuite/btcd/wire/v2"
@@ -417,21 +418,45 @@ func CheckC19(s *Session, st *StepObs, probe bool) []Finding {
 			gotD = append(gotD, e)
 		}
 	}
-	if len(gotD) != len(wantD) {
-		out = append(out, Finding{"c19/disconnect-count/" + kc, fmt.Sprintf("%d block headers were removed (heights %d..%d) but %d disconnected events were emitted", len(wantD), f+1, len(pre)-1, len(gotD))})
-	} else {
-		for i := range wantD {
-			g, w := gotD[i], wantD[i]
-			switch {
-			case g.Height != w.h || g.Header != w.hdr:
-				out = append(out, Finding{"c19/disconnect-wrong-block/" + kc, fmt.Sprintf("disconnected event %d names height %d, want height %d (highest first)", i, g.Height, w.h)})
-			case g.NewTip != w.tip:
+	// Walk the disconnected events over a model of the block header chain.
+	// A header of this very message that the client stored and rolled back
+	// again within the step (the first header of an accepted branch is
+	// written at once; a checkpoint mismatch further up the message then
+	// rolls it back) is visible neither before nor after the step: its
+	// disconnected event is accepted if it sits directly on the model's tip.
+	inMsg := map[wire.BlockHeader]bool{}
+	for _, h := range st.Hdrs {
+		inMsg[*h] = true
+	}
+	bm := append([]wire.BlockHeader(nil), pre...)
+	transient := 0
+	for i, g := range gotD {
+		top := len(bm) - 1
+		switch {
+		case top >= 1 && int(g.Height) == top && g.Header == bm[top]:
+			if g.NewTip != bm[top-1] {
 				out = append(out, Finding{"c19/disconnect-wrong-newtip/" + kc, fmt.Sprintf("disconnected event for height %d carries a new-tip header that is not the header at height %d", g.Height, g.Height-1)})
-			case g.StillStored:
+			}
+			if g.StillStored {
 				out = append(out, Finding{"c19/disconnect-before-store/" + kc, fmt.Sprintf("disconnected event for height %d received while the block store still held that header", g.Height)})
 			}
+			bm = bm[:top]
+		case int(g.Height) == top+1 && inMsg[g.Header] && g.Header.PrevBlock == bm[top].BlockHash():
+			transient++
+			if g.NewTip != bm[top] {
+				out = append(out, Finding{"c19/disconnect-wrong-newtip/" + kc, fmt.Sprintf("disconnected event for height %d carries a new-tip header that is not the header at height %d", g.Height, g.Height-1)})
+			}
+		default:
+			out = append(out, Finding{"c19/disconnect-wrong-block/" + kc, fmt.Sprintf("disconnected event %d names height %d, want height %d (highest first)", i, g.Height, top)})
 		}
 	}
+	if len(bm)-1 > f && !hasPrefix(out, "c19/disconnect-wrong-block/") {
+		out = append(out, Finding{"c19/disconnect-count/" + kc, fmt.Sprintf("%d block headers were removed (heights %d..%d) but only %d of them were announced as disconnected (%d events)", len(wantD), f+1, len(pre)-1, len(pre)-len(bm), len(gotD))})
+	}
+	if len(bm)-1 < f {
+		out = append(out, Finding{"c19/disconnect-count/" + kc, fmt.Sprintf("%d block headers were removed (heights %d..%d) but %d disconnected events were emitted", len(wantD), f+1, len(pre)-1, len(gotD))})
+	}
+	_ = transient
 
 	// Replay model: a subscriber holding the committed chain up to the filter
 	// tip applies the events in order.
@@ -535,6 +560,15 @@ func probeBacklog(s *Session, st *StepObs) []Finding {
 func laterDisconnected(rest []EventObs, e EventObs) bool {
 	for _, r := range rest {
 		if !r.Connected && r.Height <= e.Height {
+			return true
+		}
+	}
+	return false
+}
+
+func hasPrefix(fs []Finding, p string) bool {
+	for _, f := range fs {
+		if strings.HasPrefix(f.Sig, p) {
 			return true
 		}
 	}
